@@ -153,6 +153,11 @@ impl Seqs {
     }
 
     fn check(&self, idx: &[usize], ctx: &mut Ctx) {
+        self.check_labelled(idx, ctx, None)
+    }
+
+    /// `label`: (short witness, case) standing for a long repetitive sequence.
+    fn check_labelled(&self, idx: &[usize], ctx: &mut Ctx, label: Option<(String, Value)>) {
         let (cname, pre, post) = BLOCK_CONTEXTS[self.ctx];
         let mut body = String::new();
         let mut starts = Vec::new();
@@ -163,9 +168,12 @@ impl Seqs {
             starts.push(pre.len() + body.len());
             body.push_str(&self.pool[self.clean[*i]].1);
         }
-        let text = format!("{}{}{}", pre, body, post);
+        let full_text = format!("{}{}{}", pre, body, post);
         let names: Vec<&str> = idx.iter().map(|i| self.pool[self.clean[*i]].0.as_str()).collect();
-        let case = json!({"ctx": cname, "parts": names, "text": text});
+        let (text, case) = match label {
+            Some((w, c)) => (w, c),
+            None => (full_text.clone(), json!({"ctx": cname, "parts": names, "text": full_text})),
+        };
         if !ctx.begin(|| case.clone()) {
             return;
         }
@@ -175,7 +183,7 @@ impl Seqs {
             format!("{} prev={} at={}", cname, prev, names.get(k).copied().unwrap_or("END"))
         };
         let part_of_offset = |off: usize| -> usize { starts.iter().rposition(|s| *s <= off).unwrap_or(0) };
-        let p = match subject::parse(&text) {
+        let p = match subject::parse(&full_text) {
             Ok(p) => p,
             Err(_) => {
                 ctx.count("skipped_not_returning", 1);
@@ -293,8 +301,66 @@ impl Space for Seqs {
     }
 }
 
+/// Long repetitive sequences: N copies of one statement of the pool followed by one victim
+/// statement, for N around powers of two (state that accumulates per statement).
+pub struct Repeats {
+    pub seqs: Seqs,
+    pub counts: Vec<usize>,
+}
+
+const VICTIMS: &[&str] = &["ident_stmt", "assign_lit", "gate_call", "paren_binary_stmt", "decl_init_binary", "IfThenBlock(assign)"];
+
+impl Repeats {
+    fn run(&self, i: usize, n: usize, victim: &str, ctx: &mut Ctx) {
+        let j = match self.seqs.clean.iter().position(|k| self.seqs.pool[*k].0 == victim) {
+            Some(j) => j,
+            None => return,
+        };
+        let mut idx = vec![i; n];
+        idx.push(j);
+        let rname = &self.seqs.pool[self.seqs.clean[i]].0;
+        let w = format!("{} x `{}` then `{}` in {}", n, self.seqs.pool[self.seqs.clean[i]].1.trim_end(), self.seqs.pool[self.seqs.clean[j]].1, BLOCK_CONTEXTS[self.seqs.ctx].0);
+        let case = json!({"repeat": rname, "n": n, "then": victim, "ctx": BLOCK_CONTEXTS[self.seqs.ctx].0});
+        self.seqs.check_labelled(&idx, ctx, Some((w, case)));
+    }
+}
+
+impl Space for Repeats {
+    fn name(&self) -> String {
+        format!("STMT-REPEAT/{}", BLOCK_CONTEXTS[self.seqs.ctx].0)
+    }
+    fn describe(&self) -> Value {
+        json!({"space": "STMT-REPEAT", "context": BLOCK_CONTEXTS[self.seqs.ctx].0, "repeated": self.seqs.clean.len(), "counts": self.counts, "victims": VICTIMS})
+    }
+    fn num_blocks(&self) -> u64 {
+        self.seqs.clean.len() as u64
+    }
+    fn run_block(&self, block: u64, ctx: &mut Ctx) {
+        for n in &self.counts {
+            for v in VICTIMS {
+                self.run(block as usize, *n, v, ctx);
+            }
+        }
+    }
+    fn replay(&self, case: &Value, ctx: &mut Ctx) {
+        let r = case["repeat"].as_str().unwrap_or("");
+        let i = match self.seqs.clean.iter().position(|k| self.seqs.pool[*k].0 == r) {
+            Some(i) => i,
+            None => return,
+        };
+        self.run(i, case["n"].as_u64().unwrap_or(1) as usize, case["then"].as_str().unwrap_or(""), ctx);
+    }
+    fn block_timeout_s(&self) -> u64 {
+        240
+    }
+}
+
 pub fn spaces(tier: Tier, _seed: u64) -> Vec<Box<dyn Space>> {
     let mut v: Vec<Box<dyn Space>> = Vec::new();
+    let counts: Vec<usize> = if tier.is_thorough() { vec![7, 8, 15, 16, 31, 32, 33, 63, 64, 65, 100, 127, 128, 129, 255, 256, 257, 511, 512, 513, 1000, 1023, 1024, 1025, 4096] } else { vec![8, 31, 32, 33, 63, 64, 65, 127, 128, 129, 255, 256, 257, 1024] };
+    v.push(Box::new(Repeats { seqs: Seqs::new(0, 1), counts: counts.clone() }));
+    v.push(Box::new(Repeats { seqs: Seqs::new(7, 1), counts: counts.clone() }));
+    v.push(Box::new(Repeats { seqs: Seqs::new(1, 1), counts }));
     for c in 0..BLOCK_CONTEXTS.len() {
         v.push(Box::new(Seqs::new(c, 1)));
         v.push(Box::new(Seqs::new(c, 2)));
